@@ -26,6 +26,7 @@ PROP = [  # (keyword in commit subject, property, signature of the finding it re
  ("file name containing a double quote", "C05", "sink:new_pic/desc"), ("insert_picture spliced", "C05", "sink:new_ph_pic/name,desc"),
  ("add_movie spliced", "C05", "sink:new_video_pic/shape_name"), ("graphic-frame name was spliced", "C05", "sink:new_graphicFrame/name"),
  ("add_ole_object spliced", "C05", "sink:new_ole_object_graphicFrame/progId,name"), ("chart number formats were spliced", "C05", "sink:xmlwriter/number_format (8 sites); C07 number-format-quote-breaks-date-axis"),
+ ("came back as blanks", "C05", "attr-ws-normalised:* (9 attribute sinks)"), ("came back as a line feed", "C05", "text-cr-normalised:* (9 text sinks); C07 cr-in-string-becomes-lf"),
  ("EMF images", "C15", "emf-stored-as-wmf"), ("TIFF without resolution", "C15", "tiff-without-resolution-sized-at-1dpi"),
 ]
 k = json.load(open(os.path.join(V, "known_findings.json")))
